@@ -272,6 +272,55 @@ Section Statements.
   Qed.
 End Statements.
 
+(* ---- chains of resumed runs ----
+   A job is stopped and resumed any number of times: the first run executes h0 ++ [i0] and writes its state; every
+   later job is a fresh instance that loads the file of its predecessor, executes the predecessor's last step again,
+   then its own segment h ++ [i'], and writes its state.  When "the same state file" is equality, the file written
+   by the last job is the file the uninterrupted run writes at that step. *)
+Section Chains.
+  Context {Cfg St In Out Saved : Type} (M : machine Cfg St In Out Saved).
+  Variable Ok : Cfg -> Prop.
+  Variable OutEq0 OutEq : Out -> Out -> Prop.
+
+  Fixpoint chain_file (c : Cfg) (f : Z * Saved) (i : In) (segs : list (list In * In)) : Z * Saved :=
+    match segs with
+    | [] => f
+    | (h, i') :: r => chain_file c (state_file M c (fst (resume M c f (i :: h ++ [i'])))) i' r
+    end.
+
+  Fixpoint chain_history (segs : list (list In * In)) : list In :=
+    match segs with
+    | [] => []
+    | (h, i') :: r => h ++ i' :: chain_history r
+    end.
+
+  Definition resumes_repeatedly : Prop :=
+    forall c, Ok c -> forall it0 h0 i0 segs,
+      chain_file c (state_file M c (fst (run M c it0 (h0 ++ [i0])))) i0 segs =
+      state_file M c (fst (run M c it0 (h0 ++ i0 :: chain_history segs))).
+
+  Lemma resumes_file_eq : resumes_like_uninterrupted M Ok OutEq0 OutEq eq ->
+    forall c, Ok c -> forall it0 h1 i h2,
+      state_file M c (fst (resume M c (state_file M c (fst (run M c it0 (h1 ++ [i])))) (i :: h2))) =
+      state_file M c (fst (run M c it0 (h1 ++ i :: h2))).
+  Proof.
+    intros H c Hc it0 h1 i h2.
+    destruct (H c Hc it0 h1 i h2) as (oP & o0 & oU & oB & _ & _ & _ & _ & H5 & H6). cbn zeta in H5, H6.
+    unfold state_file at 1 3. unfold mod_save. cbn [fst snd]. rewrite H5, H6. reflexivity.
+  Qed.
+
+  Theorem resume_chain : resumes_like_uninterrupted M Ok OutEq0 OutEq eq -> resumes_repeatedly.
+  Proof.
+    intros H c Hc it0 h0 i0 segs. revert h0 i0.
+    induction segs as [|[h i'] r IH]; intros h0 i0.
+    - cbn [chain_file chain_history]. reflexivity.
+    - cbn [chain_file chain_history].
+      rewrite (resumes_file_eq H c Hc it0 h0 i0 (h ++ [i'])).
+      replace (h0 ++ i0 :: h ++ [i']) with ((h0 ++ i0 :: h) ++ [i']) by (rewrite <- app_assoc; reflexivity).
+      rewrite IH. rewrite <- app_assoc. reflexivity.
+  Qed.
+End Chains.
+
 Theorem resumable_resumes {Cfg St In Out Saved} (M : machine Cfg St In Out Saved) Ok Inv Eqv OutEq0 OutEq SavedEq :
   resumable M Ok Inv Eqv OutEq0 OutEq SavedEq -> resumes_like_go_on M Ok OutEq0 OutEq SavedEq.
 Proof. intros HR c Hc it0 h1 i h2. exact (resume_vs_go_on M Ok Inv Eqv OutEq0 OutEq SavedEq HR c Hc it0 h1 i h2). Qed.
